@@ -245,4 +245,36 @@ func H_reuse(v *zzverif.T) {
 	if n := len(db); n > 2 && !db[n-1].absent {
 		same("last-operand-left-out", zzApplyOn(v, used, shared[:n-1]), fresh(db[:n-1]))
 	}
+	// the very same tensor OBJECTS once more after the caller has written new values into them: the result is a
+	// function of the operands' current contents, not of their identity
+	changed := append([]zzRData(nil), db...)
+	for k := range changed {
+		d := &changed[k]
+		if d.absent || shared[k] == nil {
+			continue
+		}
+		dense, ok := shared[k].(*tensor.Dense)
+		if !ok {
+			continue
+		}
+		tag := "m" + string(rune('0'+k)) + "_"
+		switch d.kind {
+		case "f32":
+			d.f = zzverif.Syms[float32](v, tag, len(d.f))
+			for i, x := range d.f {
+				dense.Set(i, x)
+			}
+		case "f64":
+			d.d = zzverif.Syms[float64](v, tag, len(d.d))
+			for i, x := range d.d {
+				dense.Set(i, x)
+			}
+		case "bool":
+			d.b = zzverif.Syms[bool](v, tag, len(d.b))
+			for i, x := range d.b {
+				dense.Set(i, x)
+			}
+		}
+	}
+	same("same-objects-with-new-contents", zzApplyOn(v, used, shared), fresh(changed))
 }
